@@ -234,6 +234,7 @@ type Gen struct {
 	lockObls  bool
 	keyPaths  map[string]string
 	keyAlias  map[*ssa.Function]string
+	heapTy    map[string]types.Type // Go type of the elements of a field heap
 	coveredSite map[ssa.Instruction]bool
 	inInit    bool
 	unstableGlobals  map[string]bool
